@@ -1,5 +1,8 @@
-// Package repro holds minimal reproductions of defects that are recorded as findings rather than repaired.
-// Every test in this file FAILS on the real code (that is the point).  Run from /verif/harness:
+// Package repro holds minimal reproductions of defects found by the C05 tarfs model.  The three defects reproduced by
+// TestGnuTarOutputKeepsXattrs, TestTarInputHardLink and TestTarInputSkipsPaxGlobalHeader were repaired in /repo (c6df8d2,
+// 8595654): these tests PASS now and failed before.  TestGnuTarOutputKeepsXattrsOnDirectories FAILS on the real code
+// (that is the point): it is what the repair 8595654 does not reach because of the finding
+// gnutar.header-mode.filemode-bits, which is kept.  Run from /verif/harness:
 //
 //	go test -count=1 ./repro/            (add -modfile=<go.mod with the replace directive redirected> for another tree)
 package repro
@@ -10,6 +13,7 @@ import (
 	"context"
 	"io"
 	"os"
+	"strings"
 	"testing"
 	"time"
 
@@ -76,8 +80,8 @@ func throughCatar(t *testing.T, stream []byte) *tree {
 	return tr
 }
 
-// finding gnutar.xattrs.refused-under-format-gnu: a file with one extended attribute, packed, then unpacked to a GNU tar
-// stream (desync untar --output-format gnu-tar).  Fails with
+// repaired in 8595654 (was finding gnutar.xattrs.refused-under-format-gnu): a file with one extended attribute, packed, then
+// unpacked to a GNU tar stream (desync untar --output-format gnu-tar).  Before, it failed with
 // "archive/tar: cannot encode header: Format specifies GNU; and only PAX supports Xattrs".
 func TestGnuTarOutputKeepsXattrs(t *testing.T) {
 	mt := time.Unix(1500000000, 0)
@@ -109,23 +113,52 @@ func TestGnuTarOutputKeepsXattrs(t *testing.T) {
 	t.Fatal("the extended attribute is not in the GNU tar stream")
 }
 
-// finding tarinput.typeflag-not-a-file-becomes-regular-file (a): a tree in which one file has two names, as tar(1) packs it
-// (the second name is a hard link entry without content).  The archive made from the stream holds b as an EMPTY file.
-func TestTarInputHardLinkKeepsContent(t *testing.T) {
+// NOT repaired (a consequence of the kept finding gnutar.header-mode.filemode-bits): a directory and a symbolic link with an
+// extended attribute.  TarWriter writes the os.FileMode bits into the header's mode field (a directory: 020000000755), which
+// only a GNU header can hold, while only a PAX header can hold the attributes.  Fails with
+// "archive/tar: cannot encode header: Format specifies PAX; and PAX cannot encode Mode=2147484141".
+func TestGnuTarOutputKeepsXattrsOnDirectories(t *testing.T) {
+	mt := time.Unix(1500000000, 0)
+	for _, f := range []*desync.File{
+		{Name: "d", Path: "d", Mode: os.ModeDir | 0755, ModTime: mt, Xattrs: map[string]string{"user.k": "v"}},
+		{Name: "l", Path: "l", Mode: os.ModeSymlink | 0777, ModTime: mt, LinkTarget: "t", Xattrs: map[string]string{"user.k": "v"}},
+		{Name: "s", Path: "s", Mode: os.ModeSetuid | 0755, ModTime: mt, Data: io.NopCloser(bytes.NewReader(nil)), Xattrs: map[string]string{"user.k": "v"}},
+	} {
+		src := &recs{files: []*desync.File{{Name: ".", Path: ".", Mode: os.ModeDir | 0755, ModTime: mt}, f}}
+		var catar bytes.Buffer
+		if err := desync.Tar(context.Background(), &catar, src); err != nil {
+			t.Fatal(err)
+		}
+		var out bytes.Buffer
+		w := desync.NewTarWriter(&out)
+		if err := desync.UnTar(context.Background(), bytes.NewReader(catar.Bytes()), w); err != nil {
+			t.Errorf("untar to a GNU tar stream, %s with an extended attribute: %v", f.Name, err)
+		}
+	}
+}
+
+// repaired in c6df8d2 (was finding tarinput.typeflag-not-a-file-becomes-regular-file, a): a tree in which one file has two
+// names, as tar(1) packs it (the second name is a hard link entry without content).  Before, the archive made from the stream
+// held b as an EMPTY file; now Tar fails with "./b: hard links are not supported".
+func TestTarInputHardLink(t *testing.T) {
 	mt := time.Unix(1500000000, 0)
 	s := tarStream(t, []*tar.Header{
 		{Typeflag: tar.TypeDir, Name: "./", Mode: 0755, ModTime: mt},
 		{Typeflag: tar.TypeReg, Name: "./a", Mode: 0644, ModTime: mt},
 		{Typeflag: tar.TypeLink, Name: "./b", Linkname: "./a", Mode: 0644, ModTime: mt},
 	}, map[string]string{"./a": "content"})
-	tr := throughCatar(t, s)
-	if tr.files["a"] != "content" || tr.files["b"] != "content" {
-		t.Fatalf("files after tar --input-format tar ; untar: %q (want a and b with \"content\")", tr.files)
+	var c bytes.Buffer
+	err := desync.Tar(context.Background(), &c, desync.NewTarReader(bytes.NewReader(s), desync.TarReaderOptions{}))
+	if err == nil {
+		t.Fatal("Tar of a tar stream with a hard link entry succeeded")
+	}
+	if !strings.Contains(err.Error(), "hard links are not supported") {
+		t.Fatalf("Tar failed, but not for the hard link: %v", err)
 	}
 }
 
-// finding tarinput.typeflag-not-a-file-becomes-regular-file (b): a stream that starts with a PAX global header, as every
-// `git archive` output does.  The archive made from it consists of one empty file named "."; the tree is gone, with success.
+// repaired in c6df8d2 (was finding tarinput.typeflag-not-a-file-becomes-regular-file, b): a stream that starts with a PAX
+// global header, as every `git archive` output does.  Before, the archive made from it consisted of one empty file named ".".
 func TestTarInputSkipsPaxGlobalHeader(t *testing.T) {
 	mt := time.Unix(1500000000, 0)
 	s := tarStream(t, []*tar.Header{
